@@ -139,3 +139,106 @@ theorem svgDraw_refines (d : Draw ν) (hc : d.cap ≤ 2) : svgRun N (svgDraw N d
 
 end
 end Canvas.C12
+
+namespace Canvas.C12
+section
+variable {ν : Type} {N : Num ν}
+
+/-! ### gradient references resolve -/
+
+theorem svgRegister_sub (p : Paint) (on : Bool) (st : List Nat × List Nat) : ∀ i ∈ st.1, i ∈ (svgRegister p on st).1 := by
+  intro i hi
+  cases p with
+  | grad k =>
+    simp only [svgRegister]
+    split
+    · simp [hi]
+    · exact hi
+  | none => exact hi
+  | col c => exact hi
+
+theorem svgRegister_mem (i : Nat) (st : List Nat × List Nat) : i ∈ (svgRegister (.grad i) true st).1 := by
+  simp only [svgRegister]
+  by_cases h : i ∈ st.1
+  · simp [h]
+  · simp [h]
+
+theorem fillItems_grads (d : Draw ν) (i : Nat) (h : i ∈ (svgFillItems d).filterMap itemGrad) :
+    d.hasFill = true ∧ d.fill = .grad i := by
+  unfold svgFillItems at h
+  by_cases hf : d.hasFill = true
+  · by_cases hb : d.fill = .col black <;> by_cases he : d.evenOdd = true <;> simp_all [itemGrad] <;>
+      (cases hfl : d.fill <;> simp_all [itemGrad])
+  · simp_all [itemGrad]
+
+theorem joinItems_grads (j : Join ν) : (svgJoinItems N j).filterMap itemGrad = [] := by
+  cases j with
+  | bevel => simp [svgJoinItems, itemGrad]
+  | round => simp [svgJoinItems, itemGrad]
+  | miter g l => cases l <;> simp [svgJoinItems, itemGrad] <;> split <;> simp [itemGrad]
+  | arcs g l => cases l <;> simp [svgJoinItems, itemGrad] <;> split <;> simp [itemGrad]
+
+theorem strokeItems_grads (d : Draw ν) (i : Nat) (h : i ∈ (svgStrokeItems N d).filterMap itemGrad) : d.stroke = .grad i := by
+  rw [svgStrokeItems_eq] at h
+  simp only [List.filterMap_append, List.mem_append, joinItems_grads] at h
+  rcases h with (((h | h) | h) | h) | h
+  · cases hs : d.stroke <;> simp_all [itemGrad]
+  · unfold widthItems at h; split at h <;> simp [itemGrad] at h
+  · unfold capItems at h; split at h <;> (try split at h) <;> simp [itemGrad] at h
+  · simp at h
+  · unfold dashItems at h; split at h <;> (try split at h) <;> simp [itemGrad] at h
+
+/-- every `url(#p…)` a call writes refers to a gradient that is in the table after the call's `<defs>` step, i.e.
+to a `<defs>` element written by this or an earlier call — provided a stroke that is drawn (scaled width > 0)
+also has an unscaled width > 0 (true for every scale factor ≥ 0; otherwise `writePaint` itself would emit the
+`<defs>` in the middle of the path element) -/
+theorem svg_refs_defined (d : Draw ν) (pats : List Nat)
+    (hsc : d.hasStroke N d.join.svgOk = true → N.lt N.zero d.width = true) :
+    ∀ e ∈ svgDraw N d, ∀ i ∈ elemGrads e, i ∈ (svgDefs N d pats).1 := by
+  intro e he i hi
+  have hfill : d.hasFill = true → d.fill = .grad i → i ∈ (svgDefs N d pats).1 := by
+    intro hf hg
+    unfold svgDefs
+    apply svgRegister_sub
+    rw [hg, hf]
+    exact svgRegister_mem i _
+  have hstroke : d.hasStroke N d.join.svgOk = true → d.stroke = .grad i → i ∈ (svgDefs N d pats).1 := by
+    intro hs hg
+    unfold svgDefs
+    have h1 : d.stroke.has = true := by simp [Draw.hasStroke] at hs; exact hs.1
+    rw [hg] at h1 ⊢
+    rw [h1, hsc hs]
+    exact svgRegister_mem i _
+  unfold svgDraw at he
+  simp only [List.mem_append] at he
+  rcases he with he | he
+  · split at he
+    · rename_i hs
+      simp only [List.mem_singleton] at he
+      subst he
+      have := fillItems_grads d i (by simpa [elemGrads] using hi)
+      exact hfill this.1 this.2
+    · rename_i hs
+      have hs' : d.hasStroke N d.join.svgOk = true := by simpa using hs
+      simp only [List.mem_singleton] at he
+      subst he
+      simp only [elemGrads, List.filterMap_append, List.mem_append] at hi
+      rcases hi with hi | hi
+      · have := fillItems_grads d i hi
+        exact hfill this.1 this.2
+      · split at hi
+        · exact hstroke hs' (strokeItems_grads d i hi)
+        · simp at hi
+  · split at he
+    · rename_i hs
+      have hs' : d.hasStroke N d.join.svgOk = true := by simp at hs; exact hs.1
+      simp only [List.mem_singleton] at he
+      subst he
+      simp only [elemGrads] at hi
+      split at hi
+      · cases hst : d.stroke <;> simp_all [itemGrad]
+      · simp at hi
+    · simp at he
+
+end
+end Canvas.C12
